@@ -328,8 +328,34 @@ class VN:
         if is_tuple(v):
             return v
         if isinstance(v, Closure):
-            return T.sym("<closure %s>" % getattr(v.node, "name", "lambda"), real=True)
+            return self.closure_term(v)
         return T.sym(repr(v), real=True)
+
+    def closure_term(self, clo):
+        """a closure as a term: its body value-numbered over symbolic parameters ($name)"""
+        node = clo.node
+        params = [a.arg for a in node.args.args]
+        if self.depth >= self.max_depth:
+            return T.sym("<closure %s>" % getattr(node, "name", "lambda"), real=True)
+        env = dict(clo.env)
+        for p in params:
+            env[p] = T.sym("$" + p)
+        sub = VN(self.model, self.func, self.real, self.scalars, self.inline, self.max_depth, self.depth + 1,
+                 self.call_hook, self.name_hook, self.loop_hook)
+        try:
+            if isinstance(node, ast.Lambda):
+                return T.app("lambda", sub._as_term(sub.ev(node.body, State(env))))
+            outs = sub.run(node.body, State(env))
+        except Unrecognised:
+            return T.sym("<closure %s>" % getattr(node, "name", "lambda"), real=True)
+        parts = []
+        for o in outs:
+            if o.status == "raise":
+                continue
+            c = T.app("and", *o.conds) if o.conds else TRUE
+            parts.append(T.app("path", c, sub._as_term(o.ret) if o.ret is not None else NONE))
+        parts.sort(key=lambda a: repr(a.key()))
+        return T.app("lambda", *parts)
 
     def ev_BoolOp(self, e, st):
         vals = [self._as_term(self.ev(v, st)) for v in e.values]
@@ -348,7 +374,12 @@ class VN:
         return T.app("and" if is_and else "or", *keep)
 
     def ev_Compare(self, e, st):
-        left = self._as_term(self.ev(e.left, st))
+        lraw = self.ev(e.left, st)
+        if isinstance(lraw, Obj) and len(e.ops) == 1 and isinstance(e.ops[0], (ast.Is, ast.IsNot, ast.Eq, ast.NotEq)):
+            r = self.ev(e.comparators[0], st)
+            if r == NONE:
+                return FALSE if isinstance(e.ops[0], (ast.Is, ast.Eq)) else TRUE
+        left = self._as_term(lraw)
         out = []
         for op, c in zip(e.ops, e.comparators):
             right = self._as_term(self.ev(c, st))
@@ -372,6 +403,9 @@ class VN:
                 return T.app("nonneg", T.sub(b, a))
             if isinstance(op, ast.GtE):
                 return T.app("nonneg", T.sub(a, b))
+            if isinstance(op, (ast.Eq, ast.NotEq)) and _is_strlit(a) and _is_strlit(b):
+                same = a == b
+                return (TRUE if same else FALSE) if isinstance(op, ast.Eq) else (FALSE if same else TRUE)
             if isinstance(op, (ast.Eq, ast.NotEq)):
                 d = T.sub(a, b)
                 nd = T.neg(d)
@@ -542,6 +576,7 @@ class VN:
         k = self.key_of(f)
         if k is not None and isinstance(st.env.get(k), Closure):
             return self.call_closure(st.env[k], e, st)
+        recv = None  # receiver value of a method call on a computed expression (evaluated once)
         if isinstance(f, (ast.Name, ast.Attribute, ast.Subscript, ast.Call)):
             fv = None
             if k is not None and isinstance(st.env.get(k), Obj):
@@ -553,6 +588,8 @@ class VN:
                         bv = self.ev(f.value, st)
                     except Unrecognised:
                         bv = None
+                    if k is None:
+                        recv = bv
                     if isinstance(bv, Obj):
                         fv = bv.vn_getattr(f.attr, self, st, f)
                         if fv is None:
@@ -571,6 +608,14 @@ class VN:
         if any(isinstance(a, ast.Starred) for a in e.args):
             args = [self._as_term(self.ev(a, st)) for a in e.args]
         kw = {kk.arg: self.ev(kk.value, st) for kk in e.keywords if kk.arg is not None}
+        self._argcache = {}
+        if not any(isinstance(a, ast.Starred) for a in e.args):
+            for a, v in zip(e.args, args):
+                self._argcache[id(a)] = v
+        for kk in e.keywords:
+            if kk.arg is not None:
+                self._argcache[id(kk.value)] = kw[kk.arg]
+        argcache = self._argcache
         # method-style calls on values
         if isinstance(f, ast.Attribute):
             r = self.method_call(f, e, args, kw, st)
@@ -588,10 +633,11 @@ class VN:
                 return args[0]
             if fn.qual in self.inline and self.depth < self.max_depth:
                 return self.inline_call(fn, e, st)
-            bound = self.bind_values(fn, e, st)
+            bound = self.bind_values(fn, e, st, argcache)
             return T.app("fn:" + fn.qual, *[T.app("kw:" + p, self._as_term(bound[p])) for p in sorted(bound)])
         if tgt is not None and tgt[0] == "class":
-            bound = self.bind_values(tgt[1], e, st)
+            bound = self.bind_values(tgt[1], e, st, argcache)
+            st.events.append(("new", tgt[1].qual, bound, e))
             return T.app("new:" + tgt[1].qual, *[T.app("kw:" + p, self._as_term(bound[p])) for p in sorted(bound)])
         name = None
         if tgt is not None and tgt[0] == "ext":
@@ -602,16 +648,23 @@ class VN:
             return r
         label = name or k or unparse(f)
         allargs = [self._as_term(a) for a in args] + [T.app("kw:" + kk, self._as_term(v)) for kk, v in sorted(kw.items())]
+        if name is None and k is None and isinstance(f, ast.Attribute):
+            # method of a computed value: keep the receiver as a term, not as source text
+            if recv is not None:
+                return T.app("method:" + f.attr, self._as_term(recv), *allargs)
         if k is not None and isinstance(st.env.get(k), T.Poly) and name is None:
             # callee is a value held in a variable (bound comprehension variable, user callable passed in)
             return T.app("callv", st.env[k], *allargs)
         return T.app("call:" + label, *allargs)
 
-    def bind_values(self, target, call, st):
+    def bind_values(self, target, call, st, cache=None):
         b = self.model.bind(call, target)
         out = {}
+        cache = cache or {}
         for p, node in b.items():
-            if isinstance(node, list):
+            if not isinstance(node, (list, dict)) and id(node) in cache:
+                out[p] = cache[id(node)]
+            elif isinstance(node, list):
                 out[p] = tuple(self.ev(x, st) for x in node)
             elif isinstance(node, dict):
                 out[p] = T.app("dict", *[T.app("kw:" + k, self._as_term(self.ev(v, st))) for k, v in sorted(node.items())])
@@ -1009,6 +1062,11 @@ def _replace_atom(t, old_atom, new_term):
         return T.atom_poly(a)
 
     return rb(t)
+
+
+def _is_strlit(v):
+    a = v.single_atom() if isinstance(v, T.Poly) else None
+    return a is not None and a[0] == "sym" and a[1][:1] in ("'", '"')
 
 
 def _is_constructed(v):
